@@ -22,8 +22,20 @@ open VtModel.Vpl
 /-- **C18 (positive part)**: for every nesting depth, every syntax tree and every layout, the text parses
     to exactly the operations, parameters and nested pipelines it describes. By induction over the depth;
     covers every interaction of lists followed by sources, repeated keys, escapes inside nested pipelines. -/
-theorem parse_render (d : Nat) (c : CPipe d) (h : WF d c) : parseVpl (render d c) = .ok (treeOf d c) :=
-  parseVpl_render d c h
+theorem parse_render (d : Nat) (c : CPipe d) (h : WF d c) (hd : bracketDepth (render d c) ≤ maxNesting) :
+    parseVpl (render d c) = .ok (treeOf d c) :=
+  parseVpl_render d c h hd
+
+/-- the recursive parser itself needs no bound: the hypothesis `hd` above is only the lexical nesting guard
+    that `parse_vpl` applies first since fix be686a0f (at most 64 `[` open outside quotes, value lists
+    included), stated on the text exactly as the code computes it -/
+theorem parse_render_core (d : Nat) (c : CPipe d) (h : WF d c) : parseVplCore (render d c) = .ok (treeOf d c) :=
+  parseVplCore_render d c h
+
+/-- texts nested deeper than the guard allows are rejected with an error — whatever they contain (before
+    fix be686a0f about 8000 nested `[` exhausted the native stack of the real parser: finding F16) -/
+theorem too_deep_rejected (s : Str) (h : maxNesting < bracketDepth s) : parseVpl s = .err :=
+  parseVpl_too_deep s h
 
 /-- the same below any amount of spare recursion fuel, in front of any continuation `,…` / `]…` / end:
     the form used inside source lists -/
@@ -173,6 +185,9 @@ def exNode : CNode 1 :=
     srcs := some (.some ⟨leaf sp "b" [], [leaf [] "c" []]⟩ [⟨leaf [] "d" sp, []⟩]),
     post := [] }
 def exPipe : CPipe 1 := ⟨exNode, []⟩
+
+/-- the worked example passes the nesting guard: one level of brackets -/
+example : bracketDepth (render 1 exPipe) = 1 := by decide
 
 example : render 1 exPipe = "a\tk=\"x y\" k=[1 , \"\\\"\"][ b|c,d ]".toList := by decide
 
